@@ -39,12 +39,15 @@ fn lane_fields(prefix: &str, l: &Lane) -> Vec<(String, String)> {
 pub fn write_replay(dir: &str, prop: &str, armed: u32, v: &Violation) -> String {
     let mut kv: Vec<(String, String)> = vec![
         ("property".into(), json::s(prop)),
-        ("kind".into(), json::s(if v.relation.starts_with("scan") { "scan" } else { "parse" })),
+        ("kind".into(), json::s(if v.relation.starts_with("scan") { "scan" } else if v.relation == "family" || v.relation == "scaling" { "family" } else { "parse" })),
         ("relation".into(), json::s(&v.relation)),
         ("armed".into(), armed.to_string()),
         ("what".into(), json::s(&v.what)),
     ];
     kv.extend(lane_fields("", &v.lane));
+    if v.relation == "family" || v.relation == "scaling" {
+        kv.push(("descriptor".into(), json::s(&String::from_utf8_lossy(&v.input))));
+    }
     kv.push(("input_hex".into(), json::s(&hex(&v.input))));
     kv.push(("input".into(), json::s(&printable(&v.input))));
     kv.push(("observed".into(), json::s(&v.observed)));
@@ -164,7 +167,12 @@ pub fn journal_to_replays(journal: &str, dir: &str, prop: &str) {
         if seq == 0 || in_call == 0 {
             continue;
         }
-        let lane = Lane::decode(&s[16..32]);
+        let is_scan = s[16] >= 100;
+        let mut lb = s[16..32].to_vec();
+        if is_scan {
+            lb[0] = Entry::Chunk as u8;
+        }
+        let lane = Lane::decode(&lb);
         let kind = u32::from_le_bytes(s[32..36].try_into().unwrap());
         let len = u32::from_le_bytes(s[36..40].try_into().unwrap()) as usize;
         if kind == 1 {
@@ -186,7 +194,7 @@ pub fn journal_to_replays(journal: &str, dir: &str, prop: &str) {
             observed: "no return".into(),
             expected: "Ok(Complete) / Ok(Partial) / Err".into(),
             related: None,
-            relation: "crash".into(),
+            relation: if is_scan { "scan-crash".into() } else { "crash".into() },
         };
         println!("{}", write_replay(dir, prop, 0, &v));
     }
